@@ -27,7 +27,8 @@ RULE = ('Domain 1 (timeouts, virtual time): one phase under test with duration d
         'preemptions are enumerated.  Oracle: kill that returned before start() => body never runs; ThreadTerminationError is only '
         'ever observed inside the body, never in the handlers, the killer or main; a kill that completed while the body had >=2 '
         'steps left => the body does not finish.  Non-trivial = |d - t| <= eps or d within the poll window, or a kill that lands '
-        'within two yield points of a state change of the target; distinct by canonical case.')
+        'within two yield points of a state change of the target; distinct by canonical case.  The grid also contains bodies that '
+        'return REPEAT twice and then a value, each invocation taking 0.3-0.9 of timeout_s (the timeout is per invocation).')
 ASSUMPTIONS = ['Virtual time; PyThreadState_SetAsyncExc is modelled as "pending exception raised at the target\'s next yield point".',
                'A body that finishes within the join-poll window after its deadline (t < d <= t+3) may be reported either way.']
 
